@@ -1,6 +1,7 @@
 """C12 Documented value ranges and ordering invariants hold on every valid stream
 (spec/Ranges.tla evaluated on recorded executions by Trace_Ind (CHECK_RANGES) and Trace_Num / Trace_Candle)."""
 import os, json
+import json
 from verif import *
 import indfam, numfam
 
@@ -8,6 +9,49 @@ import indfam, numfam
 RANGED = ["Aroon", "BollingerBands", "ChaikinMoneyFlow", "ChandeMomentumOscillator", "DonchianChannel", "Envelopes", "KeltnerChannel",
           "MoneyFlowIndex", "ParabolicSAR", "PriceChannelStrategy", "RelativeStrengthIndex", "SMIErgodicIndicator", "StochasticOscillator",
           "TrueStrengthIndex"]
+
+
+def fx(j):
+    n = 0
+    for limb in reversed(j["m"]):
+        n = n * 10000 + limb
+    return j["s"] * n / 1e24
+
+
+def residue_class(name, evs, start, k):
+    """The open range findings (ChandeMomentumOscillator, RelativeStrengthIndex) are about ROUNDING RESIDUE left in running sums
+    once the recent price changes are negligible against earlier ones (flat stretch, drop of the price scale). A rejection is
+    attributed to them only when its excess over the documented interval is explained by such a residue:
+        excess <= 16 r / S   with  r = 64 eps t H,  H = largest one-step change of the source so far,
+                                   S = sum of the one-step changes over the last n steps (n = the configured period: the reach of the running sums);
+    otherwise the key gets the suffix '@beyond-residue', which no finding lists."""
+    try:
+        cfg = json.loads(evs[start]["raw_cfg"])
+        n = cfg.get("period") or max([v for v in (cfg.get("ma") or {}).values() if isinstance(v, int)] + [1])
+        cs = [e["c"] for e in evs[start:k + 1] if "c" in e]
+        def src(c):
+            o, h, l, cl, v = (fx(c[f]) for f in "ohlcv")
+            kind = cfg.get("source", "close")
+            return {"close": cl, "open": o, "high": h, "low": l, "tp": (h + l + cl) / 3, "hl2": (h + l) / 2, "ohlc4": (o + h + l + cl) / 4,
+                    "volume": v, "volumed_price": (h + l + cl) / 3 * v}[kind]
+        series = [[src(c) for c in cs]]
+        d = [[abs(x[i] - x[i - 1]) for i in range(1, len(x))] for x in series]
+        H = max([max(x) for x in d if x] + [0.0])
+        W = n
+        S = max([sum(x[-W:]) for x in d] + [0.0])
+        t = len(cs)
+        r = 64 * 2.220446049250313e-16 * t * H
+        v = fx(evs[k]["v"][0]) if evs[k].get("v") else float("nan")
+        lo, hi = (-1.0, 1.0) if name == "ChandeMomentumOscillator" else (0.0, 1.0)
+        if v != v:
+            excess = float("inf")
+        else:
+            excess = max(0.0, v - hi, lo - v)
+        if S <= 16 * r or excess <= 16 * r / S:
+            return ""
+        return "@beyond-residue"
+    except Exception as ex:            # an event without the expected fields: do not attribute it to a listed finding
+        return "@unclassified"
 
 
 def run(chk):
@@ -34,7 +78,7 @@ def run(chk):
                 finally:
                     os.environ.pop("YV_WITNESS_SETS", None)
                 files.append((wf, n))
-    indfam.validate(chk, files, "ranges", "range")
+    indfam.validate(chk, files, "ranges", "range", classify=lambda name, evs, start, k: residue_class(name, evs, start, k) if name in special else "")
     # dispersion measures are never negative up to the rounding allowance: implied by the two-sided acceptance around a non-negative exact value;
     # Trace_Candle's acceptance already bounds them two-sidedly around a non-negative exact value; here the sign is asserted
     # on flat-after-volatile streams
